@@ -75,6 +75,16 @@ def histories(rng, tier):
             if g == 'fast':
                 ln += ' nsr=%d' % (spord + rng.choice([1, 2, 5]))
             h.append(ln)
+            if rng.random() < 0.35 and nv >= 1:
+                # the footprint MOVES between two draws on the same map object while the number of valid pixels
+                # stays the same (anything a generator remembers about the map must be keyed on more than a
+                # count: seeded change C20h)
+                cur = sorted(set(pix))
+                gone = rng.choice(cur)
+                new = rng.choice([p for p in range(12 * 4 ** spord) if p not in cur][:4096] or [gone])
+                pix = [p for p in cur if p != gone] + [new]
+                h += ['upd m op=replace none=1 pix=%d' % gone, 'upd m op=replace pix=%d val=%s' % (new, val),
+                      ln.replace('seed=', 'seed=1')]
         out.append(h)
     # footprints that are TINY in their sampling window (one or two pixels 6-7 orders below the coverage
     # resolution: a whole batch of 10 000 candidates often holds no valid point), few points requested — the
